@@ -150,7 +150,7 @@ def main(tier, replay=None):
     if exe is None:
         return c.finish(TRUSTED, no_input_break="extraction/OCaml build of the Import/Remove model failed: " + err[-1500:])
 
-    n = 120 if tier == "quick" else 4000
+    n = 120 if tier == "quick" else 1200
     impl = os.path.join(c.workdir, "impl.txt")
     stats = ""
     if replay:
